@@ -9,6 +9,8 @@
 (*   "EarlyReturnLeaksPermit"     offer() returns before processOffer without releasing         *)
 (*   "QueueFullLeaksPermit"       gossip drops a request on a full offer queue without release  *)
 (*   "StopLeavesQueued"           requests still queued at shutdown keep their slot             *)
+(*   "EndClearsOfferedKeys"       the end of a receive clears the in-flight mark of every OFFERED *)
+(*                                key, also of keys another offer is still receiving (seed C09-1) *)
 EXTENDS Integers, Sequences, FiniteSets, TLC
 
 CONSTANTS Keys,        \* content keys
@@ -77,7 +79,8 @@ RecvOutcome(o, outcome) ==
    /\ oPhase' = [oPhase EXCEPT ![o] = "ending"]
    /\ UNCHANGED <<stored, inflight, oVerdicts, oAccepted, oCid, oMarked, outHeld, rPhase, rPermit, offerQueue, stopped>>
 RecvEnd(o) == /\ oPhase[o] = "ending"
-              /\ inflight' = inflight \ SeqSet(oAccepted[o]) /\ oPhase' = [oPhase EXCEPT ![o] = "done"]
+              /\ inflight' = inflight \ (IF "EndClearsOfferedKeys" \in Devs THEN SeqSet(OfferKeys[o]) ELSE SeqSet(oAccepted[o]))
+              /\ oPhase' = [oPhase EXCEPT ![o] = "done"]
               /\ UNCHANGED <<stored, inHeld, oVerdicts, oAccepted, oCid, oPermit, oMarked, delivered, outHeld, rPhase, rPermit, offerQueue, stopped>>
 
 \* ---- offering side (gossip path: takes a slot, queues the request, a worker sends it) ----
